@@ -93,7 +93,8 @@ def generate(rng, tier):
     hostile = rng.chance(0.45)
     cfg = etsim.gen_config(rng, hostile_names=hostile, max_restarts=4,
                            decomp_classes=('tensor', 'hier'), max_P=6,
-                           mixed_grouping_p=0.0, group_vars_change_p=0.3)
+                           mixed_grouping_p=0.0, group_vars_change_p=0.3,
+                           allow_stride_change=rng.chance(0.3))
     g = rng.child('ops')
     enum = {'mode': g.pick(['sorted', 'reverse', 'shuffle']),
             'seed': g.randrange(1 << 30)}
